@@ -46,6 +46,8 @@ class C07(Check):
 
     def generate(self, rng, stratum, tier):
         spec = models.gen_aliased(rng, build=rng.choice(['python', 'python', 'yaml']))
+        if rng.random() < 0.35:
+            models.add_edge_templates(rng, spec, p=0.6)
         flat_nodes, flat_edges = models.flatten(spec)
         nodes = list(flat_nodes)
         depth = 2 if spec.get('circuits') else 1
